@@ -44,6 +44,12 @@ func ZZ_C16_noPanicCanary() {
 		canary.NoRestartsDuration = &metav1.Duration{Duration: nondet.Duration("noRestartsDuration", -30*day, 30*day)}
 	}
 	canary.ValidationMode = datadoghqv1alpha1.ExtendedDaemonSetSpecStrategyCanaryValidationMode(nondet.String("validationMode", "", "auto", "manual"))
+	// spreading keys, and a canary node selector that may match no node at all (the nodes carry no label)
+	// (one combined choice, to bound the number of paths)
+	if nondet.Bool("antiAffinityKeysAndSelectorMatchingNoNode") {
+		canary.NodeAntiAffinityKeys = []string{"zone"}
+		canary.NodeSelector = &metav1.LabelSelector{MatchLabels: map[string]string{"canary": "yes"}}
+	}
 	if nondet.Bool("autoPause.set") {
 		e, m := nondet.Bool("autoPause.enabled"), nondet.Int32("autoPause.maxRestarts", -1<<31, 1<<31-1)
 		canary.AutoPause = &datadoghqv1alpha1.ExtendedDaemonSetSpecStrategyCanaryAutoPause{Enabled: &e, MaxRestarts: &m}
